@@ -423,8 +423,11 @@ def r3_decode(run, w):
          "exactly the marshalled BLOBs are decoded", ok and seen == {"decode", "pass"}, fi=dv.fi)
   td = w.fn("main.table_data_from_db")
   ok = False
-  for c in calls_in(td.node):
-    if endswith(dotted(c.func), "decode_bulk_values") and nargs(c) == 2:
+  bulk = [c for c in calls_in(td.node) if endswith(dotted(c.func), "decode_bulk_values")]
+  if not bulk:
+    raise AnalysisError("table_data_from_db: no decode_bulk_values() call found (decoding moved?)")
+  for c in bulk:
+    if nargs(c) == 2:
       a1 = argn(w, td, c, 1)
       ok = ok or (a1 is not None and text(a1) == "_decode_db_value")
   run.ob(R3, td.qualname, "actions.decode_bulk_values(parsed, _decode_db_value)",
